@@ -96,10 +96,12 @@ def check(sc, r):
         return out
     rq, ac = N.wire_rq_ac(r)
     if sc["kind"] == "real":
-        if rq is not None:
-            out += AW.check_rq(ID, rq["payload"])
-        if ac is not None and rq is not None:
-            out += AW.check_ac(ID, ac["payload"], rq["payload"])
+        for cid in sorted(set(w["conn"] for w in r.wire)):
+            rq_i, ac_i = N.wire_rq_ac(r, cid)
+            if rq_i is not None:
+                out += AW.check_rq(ID, rq_i["payload"])
+            if ac_i is not None and rq_i is not None:
+                out += AW.check_ac(ID, ac_i["payload"], rq_i["payload"])
         # what the requestor configured must be what is on the wire
         if rq is not None and r.obs.get("proposed"):
             d = W.parse_associate(rq["payload"])
